@@ -14,7 +14,7 @@ import warnings
 
 import numpy as np
 
-from .. import cases, effects, plotgen
+from .. import cases, effects, plot1dcorr, plot1dgen, plotgen
 
 # (entry point, parameter) pairs where the path-insensitive analysis is known to over-approximate (justified in Props/C20.v)
 IMPRECISE = {('multivariate.tree.Tree.fit', 'edges')}
@@ -796,6 +796,12 @@ def _run(ctx):
                                       'From Cop Require Import Model.Plot Spec.PlotProofs Lib.PyFrame.\nFrom CopRun Require Import Gen_plot.\n'
                                       'Import ListNotations.\n(* ' + whole.split('BEGIN-BRIDGE', 1)[1])
             ctx.compile(([] if os.path.exists(os.path.join(ctx.build, 'Gen_plot.vo')) else ['Gen_plot.v']) + ['C20_bridge.v'])
+    # the 1-d plot functions, the PlotConfig colours and the colour maps of the scatter functions (tools/vf/plot1dgen.py -> Gen_plot1d.v, bridge
+    # theorems in Props/C20_1d.v, compiled on their own: independent of C20.v); fail-closed, never stops what follows
+    try:
+        plot1dgen.hook(ctx)
+    except Exception as ex:      # noqa
+        ctx.obligation('translate:plot1dgen', False, 'translation', f'plot1dgen raised {type(ex).__name__}: {ex}')
     verdicts = model_verdicts(ctx, info)
     mirror_ok = all(verdicts.get(q) == v for q, v in info['__pyverdict__'].items()) if verdicts else False
     ctx.obligation('extractor:python-mirror-equals-coq-analysis', mirror_ok, 'correspondence',
@@ -946,6 +952,10 @@ def _run(ctx):
                 ctx.violation(key, f"copulas.visualization.{c['fn']}_{c['k']}d appends 'Data' to the caller's `columns` list: {c['columns']} -> {cols}",
                               {'case': c, 'repro': direct_repro(key, None, None, seed)})
     ctx.extra['plot_outcomes'] = kinds
+    try:       # 1-d plots: dist_1d / compare_1d vs Model.Plot (tools/vf/plot1dcorr.py)
+        plot1dcorr.run(ctx, seed, quick)
+    except Exception as ex:      # noqa
+        ctx.obligation('corr:plot1d:raised', False, 'harness', f'{type(ex).__name__}: {ex}\n{traceback.format_exc()[-600:]}')
     ctx.rule('plots: random small integer frames (0-5 rows, 1-4 columns out of a..e, sometimes a user column named Data, synthetic frame with the same '
              'or different columns), columns = None / [] / valid / repeated / unknown / too short / too long / containing Data, title given or not; '
              'scatter_2d/3d, compare_2d/3d; traces (name, points in order), error class and the caller\'s columns list compared with vm_compute of Model.Plot')
